@@ -77,6 +77,15 @@ func c01Abstract(c *py.Code) ([][]interface{}, string) {
 			}
 		}
 		it := item{nil, r.off, -1}
+		// a keyword name: LOAD_CONST 'k<digits>' (no event in the model)
+		if r.op == vm.LOAD_CONST {
+			if s, ok := c.Consts[r.arg].(py.String); ok && len(s) > 1 && s[0] == 'k' {
+				if n, err := strconv.Atoi(string(s[1:])); err == nil {
+					items = append(items, item{[]interface{}{"const", 9000 + n}, r.off, -1})
+					continue
+				}
+			}
+		}
 		switch r.op {
 		case vm.JUMP_IF_FALSE_OR_POP:
 			it.ins, it.target = []interface{}{"jfop"}, r.arg
@@ -117,7 +126,12 @@ func c01Abstract(c *py.Code) ([][]interface{}, string) {
 		case vm.STORE_SUBSCR:
 			it.ins = []interface{}{"storesub"}
 		case vm.CALL_FUNCTION:
-			it.ins = []interface{}{"prim", 500, r.arg + 1}
+			if nkw := (r.arg >> 8) & 0xff; nkw != 0 {
+				// callable, positional arguments, then (name, value) pairs
+				it.ins = []interface{}{"prim", 600 + nkw, (r.arg & 0xff) + 2*nkw + 1}
+			} else {
+				it.ins = []interface{}{"prim", 500, r.arg + 1}
+			}
 		case vm.BUILD_TUPLE:
 			it.ins = []interface{}{"prim", 501, r.arg}
 		case vm.BUILD_LIST:
